@@ -153,3 +153,13 @@ Definition cmpQ_tol (tol : Q) (a b : option Q) : nat :=
       if Qle_bool (Qabs' (x - y)) (tol * (Qmax 1 (Qmax (Qabs' x) (Qabs' y)))) then 0%nat else 1%nat
   | _, _ => 2%nat
   end.
+
+(* equal, or equal up to a relative error (the code folds closed subexpressions to 15 significant digits) *)
+Definition cmpQ_rel (tol : Q) (a b : option Q) : nat :=
+  match a, b with
+  | Some x, Some y =>
+      if Qeq_bool x y then 0%nat
+      else if Qle_bool (Qabs' (x - y)) (tol * Qmax (Qabs' x) (Qabs' y)) then 0%nat else 1%nat
+  | _, _ => 2%nat
+  end.
+
